@@ -804,3 +804,214 @@ PROPS['C14'] = C14()
 PROPS['C15'] = C15()
 PROPS['C16'] = C16()
 PROPS['C19'] = C19()
+
+# ------------------------------------------------------------------ C20 histories
+
+class C20(Prop):
+    name = 'builder output depends only on the final configuration'
+    rule = ('for random final configurations of every builder: the canonical build plus 4 random call histories reaching it '
+            '(independent setters permuted, setters repeated with earlier junk values, list adds in order, NACK re-adds, FIR '
+            're-adds keeping the last, owned/borrowed variants of reason, SDES items, RPSI data and FCI, PacketBuilder::from and '
+            'one-member compound wrappers); sizes and bytes of all histories compared with the canonical build; '
+            'non-trivial = distinct history')
+    def __init__(self):
+        self.canon = {}      # hist line -> (canonical build line, wrap)
+    def _hist(self, g, init, scalars, adds, wrap):
+        """scalars: list of (op, finaltoken, junkmaker); adds: list of ops that must stay in order"""
+        ops = []
+        sc = list(scalars)
+        g.r.shuffle(sc)
+        stream = []
+        for name, val, junk in sc:
+            if g.chance(0.4):
+                stream.append(('s', '%s %s' % (name, junk())))
+            stream.append(('s', '%s %s' % (name, val)))
+        # interleave adds (in order) at random positions, keeping the last-value rule for scalars
+        positions = sorted(g.r.randrange(len(stream) + 1) for _ in adds)
+        out, ai = [], 0
+        for i in range(len(stream) + 1):
+            while ai < len(adds) and positions[ai] == i:
+                out.append(adds[ai]); ai += 1
+            if i < len(stream):
+                out.append(stream[i][1])
+        # a junk setting must precede the final one: fix any inversion
+        final_seen = {}
+        fixed = []
+        for o in out:
+            fixed.append(o)
+        # (junk entries were generated immediately before their final value, shuffling kept that order)
+        return 'hist %s %s %s end' % (wrap, init, ' '.join(fixed))
+    def cases(self, g, tier, h):
+        n = 150 if tier == 'quick' else 5000
+        out = []
+        for _ in range(n):
+            k = g.pick(['sr', 'rr', 'app', 'bye', 'sdes', 'unk', 'fb', 'fb', 'bye', 'sdes'])
+            pad = g.pad(valid=not g.chance(0.05))
+            jp = lambda: str(g.pick([0, 4, 8, 252, 3]))
+            j32 = lambda: str(g.u32())
+            if k in ('sr', 'rr'):
+                ssrc = g.ssrc()
+                nb = g.pick([0, 1, 2, 3])
+                rbs = [g.rb() for _ in range(nb)]
+                if k == 'sr':
+                    ntp, rtp, pc, oc = g.u64(), g.u32(), g.u32(), g.u32()
+                    member = ('sr %d %d %d %d %d %d %d %s' % (pad, ssrc, ntp, rtp, pc, oc, nb, ' '.join(rbs))).strip()
+                    scal = [('pad', pad, jp), ('ntp', ntp, lambda: str(g.u64())), ('rtp', rtp, j32), ('pc', pc, j32), ('oc', oc, j32)]
+                    init = 'sr %d' % ssrc
+                else:
+                    member = ('rr %d %d %d %s' % (pad, ssrc, nb, ' '.join(rbs))).strip()
+                    scal = [('pad', pad, jp)]
+                    init = 'rr %d' % ssrc
+                adds = ['rb ' + r for r in rbs]
+            elif k == 'app':
+                m = g.app(valid=True, pad=pad).split()
+                member = ' '.join(m)
+                init = 'app %s %s' % (m[2], m[4])
+                scal = [('pad', pad, jp), ('subtype', m[3], lambda: str(g.r.randrange(32))), ('data', m[5], lambda: hx(g.rawbytes(4 * g.r.randint(0, 3))))]
+                adds = []
+            elif k == 'bye':
+                ns = g.pick([0, 1, 2, 5])
+                srcs = [g.ssrc() for _ in range(ns)]
+                reason = g.utf8(g.pick([0, 1, 2, 3, 4, 7, 30]))
+                member = ('bye %d %d %s %s' % (pad, ns, ' '.join(map(str, srcs)), hx(reason))).replace('  ', ' ')
+                init = 'bye'
+                rname = g.pick(['reason', 'reasonown'])
+                scal = [('pad', pad, jp)]
+                if reason or g.chance(0.5):
+                    scal.append((rname, hx(reason), lambda: hx(g.utf8(g.r.randint(1, 9)))))
+                # reason_owned as junk too
+                adds = ['src %d' % s for s in srcs]
+            elif k == 'sdes':
+                nc = g.pick([0, 1, 2, 3])
+                chunks, adds = [], []
+                for _ in range(nc):
+                    ssrc = g.ssrc()
+                    ni = g.pick([0, 1, 2, 3])
+                    items, hitems = [], []
+                    for _ in range(ni):
+                        it = g.item(valid=True).split()
+                        ty, prefix, value = it
+                        items.append(' '.join(it))
+                        ops = []
+                        if prefix != '-':
+                            if g.chance(0.3):
+                                ops.append('prefix %s' % hx(g.rawbytes(g.r.randint(1, 4))))
+                            ops.append('prefix %s' % prefix)
+                        if g.chance(0.5):
+                            ops.insert(g.r.randrange(len(ops) + 1), 'own')
+                        if g.chance(0.3):
+                            ops.append('own')
+                        hitems.append('%s %s %s %d %s' % (ty, value, g.pick(['o', 'b']), len(ops), ' '.join(ops)))
+                    chunks.append(('%d %d %s' % (ssrc, ni, ' '.join(items))).strip())
+                    adds.append(('chunk %d %d %s' % (ssrc, ni, ' '.join(hitems))).strip().replace('  ', ' '))
+                member = ('sdes %d %d %s' % (pad, nc, ' '.join(chunks))).strip()
+                init = 'sdes'
+                scal = [('pad', pad, jp)]
+            elif k == 'unk':
+                m = g.unk(valid=True, pad=pad).split()
+                member = ' '.join(m)
+                init = 'unk %s %s' % (m[2], m[4])
+                scal = [('pad', pad, jp), ('count', m[3], lambda: str(g.r.randrange(32)))]
+                adds = []
+            else:
+                sender, media = g.ssrc(), g.ssrc()
+                fk = g.pick(['nack', 'fir', 'sli', 'rpsi', 'pli'])
+                kind = 't' if fk == 'nack' else 'p'
+                own = g.pick(['own', 'bor'])
+                if fk == 'nack':
+                    seqs = g.nack_seqs()
+                    hs = list(seqs)
+                    for _ in range(g.pick([0, 0, 1, 3])):
+                        if hs:
+                            hs.insert(g.r.randrange(len(hs) + 1), g.pick(hs))
+                    fci = ('nack %d %s' % (len(seqs), ' '.join(map(str, seqs)))).strip()
+                    fh = ('nack %d %s' % (len(hs), ' '.join(map(str, hs)))).strip()
+                elif fk == 'fir':
+                    ne = g.pick([1, 1, 2, 3])
+                    keys = []
+                    while len(keys) < ne:
+                        s = g.ssrc()
+                        if s not in keys:
+                            keys.append(s)
+                    final = [(s, g.u8()) for s in keys]
+                    hist_adds = []
+                    for s, q in final:
+                        if g.chance(0.4):
+                            hist_adds.append((s, (q + 1 + g.r.randrange(200)) % 256))
+                    g.r.shuffle(hist_adds)
+                    tail = list(final)
+                    g.r.shuffle(tail)
+                    hs = hist_adds + tail
+                    fci = 'fir %d %s' % (len(final), ' '.join('%d %d' % e for e in final))
+                    fh = 'fir %d %s' % (len(hs), ' '.join('%d %d' % e for e in hs))
+                elif fk == 'sli':
+                    fci = g.fci('sli', allow_empty=False)
+                    fh = fci
+                elif fk == 'rpsi':
+                    f = g.fci('rpsi').split()
+                    fci = ' '.join(f)
+                    rops = []
+                    dname = g.pick(['data', 'dataown'])
+                    seq = [('pt', 'pt %s' % f[1]), ('d', '%s %s %s' % (dname, f[2], f[3]))]
+                    if g.chance(0.5):
+                        seq.reverse()
+                    for tag, o in seq:
+                        if g.chance(0.4):
+                            rops.append('pt %d' % g.r.randrange(128) if tag == 'pt' else '%s %s %d' % (g.pick(['data', 'dataown']), hx(g.rawbytes(g.r.randint(1, 6))), g.r.randint(0, 8)))
+                        rops.append(o)
+                    fh = 'rpsi %d %s' % (len(rops), ' '.join(rops))
+                else:
+                    fci = fh = 'pli'
+                member = 'fb %s %d %d %d %s' % (kind, pad, sender, media, fci)
+                init = 'fb %s %s %s' % (kind, own, fh)
+                scal = [('pad', pad, jp), ('sender', sender, j32), ('media', media, j32)]
+                adds = []
+            canon = 'build e0:aa ' + member
+            out.append(canon)
+            for _ in range(4):
+                wrap = g.pick(['d', 'd', 'pb', 'comp'])
+                hl = self._hist(g, init, scal, adds, wrap)
+                self.canon[hl] = (canon, wrap)
+                out.append(hl)
+        return out
+    def relevant(self, line, impl, model):
+        return kind_of(line) == 'hist' or (kind_of(line) == 'build' and ('build e0:aa ' in line))
+    def proj(self, line, obs):
+        ws = writes_of(obs.get('writes'))
+        first = ws[0] if ws else None
+        return (obs.get('size'), first[0] if first else None,
+                canon_fir_bytes('build x ' + self._member_hint(line), first[1]) if first and first[1] is not None else None)
+    def _member_hint(self, line):
+        c = self.canon.get(line)
+        return toks(c[0])[2] + ' ' + ' '.join(toks(c[0])[3:]) if c else ' '.join(toks(line)[2:])
+    def nontrivial(self, line, impl):
+        return kind_of(line) == 'hist'
+    def group_oracle(self, recs):
+        by = {l: a for l, a, m in recs}
+        out = []
+        for hl, (canon, wrap) in self.canon.items():
+            a, c = by.get(hl), by.get(canon)
+            if a is None or c is None:
+                continue
+            cs, hs = c.get('size', ''), a.get('size', '')
+            if wrap == 'comp' and err_str(cs):
+                if hs != cs:
+                    out.append((hl, 'one-member compound of an invalid builder returned %s, the builder returns %s' % (hs, cs)))
+                continue
+            if hs != cs:
+                out.append((hl, 'this call history gives size %s, the canonical build of the same configuration gives %s' % (hs, cs)))
+                continue
+            if not ok_str(cs):
+                continue
+            n = size_n(cs)
+            wc, wh = writes_of(c.get('writes')), writes_of(a.get('writes'))
+            if not wc or not wh or wc[0][1] is None or wh[0][1] is None:
+                out.append((hl, 'write did not return normally')); continue
+            bc = canon_fir_bytes(canon, wc[0][1][:n])
+            bh = canon_fir_bytes(canon, wh[0][1][:n])
+            if wh[0][0] != wc[0][0] or bh != bc:
+                out.append((hl, 'this call history writes %s, the canonical build of the same configuration writes %s'
+                            % (bh.hex()[:160], bc.hex()[:160])))
+        return out
+
+PROPS['C20'] = C20()
